@@ -708,6 +708,8 @@ def gen_c01(tier, seed):
             ops = ['rs:%x' % v, 'k:%x' % k]
             for w in range(nwin):
                 ops += ['run:%x' % win, 'gr', 'gi' if False else 'vd']
+                # the host API's own stepping call, at its finest grain and in small batches
+                ops += ['rn:1', 'rn:1', 'rn:%x' % r.choice([2, 3, 7, 64]), 'rn:0', 'gr']
                 if w == 2:
                     ops += ['qb:41', 'qa:42', 'mm:12:34', 'md:1']
             g.add(ops + ['ng', 'do'], 'lockstep-v%d' % v)
@@ -724,7 +726,8 @@ def gen_c01(tier, seed):
     # firmware-saved NVRAM with each valid host-speed option (offset 2: 0..5; 5 = 300 baud, where a character takes
     # longer than the 20 ms key spacing), and a full window of line feeds (scrolling) before the typing starts
     bursts = [(2, 1000, 'burst', nb) for nb in (3, 4)] if tier == 'quick' else [(v, k, 'burst', nb) for v in (1, 2) for k in (250, 1000) for nb in (2, 3, 4)]
-    extra = [(2, 1000, 'opt5', 0), (2, 1000, 'blank', 130)] if tier == 'quick' else \
+    extra = [(2, 1000, 'opt5', 0), (2, 1000, 'blank', 130), (1, 1000, 'blank', 130), (1, 1000, 'traffic', 0), (2, 1000, 'traffic', 0)] if tier == 'quick' else \
+            [(v, k, 'traffic', 0) for v in (1, 2) for k in (250, 1000)] + \
             [(2, k, 'opt%d' % o, 0) for o in range(6) for k in (250, 1000)] + [(v, k, 'blank', 130) for v in (1, 2) for k in (250, 1000, 4000)]
     for (v, k, nv, nlf) in [(a, b, c, 0) for (a, b, c) in combos] + extra + bursts:
         nlf_burst, nlf = (nlf, 0) if nv == 'burst' else (0, nlf)
@@ -739,7 +742,15 @@ def gen_c01(tier, seed):
             ops += ['rs:%x' % v, 'k:%x' % k, 'bt:%x' % maxboot, settle, 'dk', 'nsv', 'rs:%x' % v, 'nrs']
         elif nv.startswith('opt'):
             ops += ['rs:%x' % v, 'k:%x' % k, 'bt:%x' % maxboot, settle, 'dk', 'nsv', 'nsp:2:%x' % int(nv[3:]), 'rs:%x' % v, 'nrs']
-        ops += ['rs:%x' % v, 'k:%x' % k, 'bt:%x' % maxboot, settle, 'dk', 'vr', 'vd']
+        if nv == 'traffic':
+            # the host keeps sending while the terminal powers up (one byte every 25 ms for the first 2 s of emulated
+            # time): the terminal must still become interactive; what it does with those bytes is not judged
+            ops += ['rs:%x' % v, 'k:%x' % k]
+            for _b in range(80):
+                ops += ['qa:%x' % r.choice([0x20, 0x41, 0x0d, 0x55, 0xaa]), 'run:%x' % max(1, 25000000 // k)]
+            ops += ['bt:%x' % maxboot, settle, settle, 'dk', 'vr', 'vd']
+        else:
+            ops += ['rs:%x' % v, 'k:%x' % k, 'bt:%x' % maxboot, settle, 'dk', 'vr', 'vd']
         for _ in range(nlf):
             ops += ['qa:a', 'run:%x' % max(1, t20 // 4)]
         if nlf:
